@@ -25,7 +25,7 @@ EXPLANATION = (
 ASSUMPTIONS = ["real arithmetic (rounding not modelled); degrees in [0,1]; the transcription of the documented formulas in HEDGES is faithful"]
 LEVEL_SCOPE = ("Decides the listed clauses for every order type (piece) over real arithmetic, reporting only definite disagreements; floating-point "
                "rounding and the clauses listed as undecided are not decided.")
-FLOORS = {"K1": 6, "F": 6, "X": 6, "R": 6, "M": 6, "O": 2, "I": 5, "V1": 6}
+FLOORS = {"K1": 6, "F": 6, "X": 6, "R": 6, "M": 6, "O": 2, "I": 5, "V1": 6, "V8": 6}
 
 HEDGES: dict[str, dict] = {
     "Any": {"cases": [(None, "1")], "fix": {0: 1, 1: 1}, "direction": 0},
@@ -77,6 +77,10 @@ def run(check: Check) -> None:
 
         if not kernel_purity(check, fn, "K1", f"{name}.hedge/pure", set()):
             continue
+        from .common import coerce_first
+
+        if not coerce_first(check, fn, "V8", f"{name}.hedge/coerce-first"):
+            continue  # the operands are not the values the interpreters assume
         fns[name] = fn
         code[name] = substitute(flatten(p, return_term(p, c, "hedge")), {("param", fn.params[1].name): X})
         c02.kernel_elementwise(check, fn, "V1", f"{name}.hedge")
